@@ -532,6 +532,53 @@ func init() {
 			if r.Intn(2) == 0 {
 				start = genDoc(r, o)
 			}
+			if idx%16 == 5 {
+				// consecutive writes into ONE directory with the directory (or an ancestor of it) taken away in between, through
+				// the root or through the builder of a node on the way: the second write creates the directory anew
+				k1, k2, k3 := c03Keys[r.Intn(4)], c03Keys[r.Intn(4)], c03Keys[r.Intn(4)]
+				dir := []string{k1 + "." + k2, k1 + "." + k2 + "." + k3, k1}[r.Intn(3)]
+				how := r.Intn(4)
+				return c03History(r, start, 4+r.Intn(10), func(step int, d dom.ContainerBuilder, ref map[string]any, fail *[]string) (c03Step, bool) {
+					addAt := func(p string, v any) (c03Step, bool) {
+						outOfDomain = false
+						paddAt(deepCopy(ref).(map[string]any), parsePPath(p), v)
+						if outOfDomain {
+							return c03Step{}, false
+						}
+						d.AddValueAt(p, anyToNode(v))
+						paddAt(ref, parsePPath(p), deepCopy(v))
+						return c03Step{fmt.Sprintf("AddValueAt(%s, %v)", p, v), "OAddValueAt " + gStr(p) + " " + gNode(v)}, true
+					}
+					switch step {
+					case 0:
+						return addAt(dir+".c", "first")
+					case 1:
+						victim := dir
+						if how == 1 && strings.Contains(dir, ".") { // an ancestor of the directory
+							victim = dir[:strings.LastIndex(dir, ".")]
+						}
+						desc := "RemoveAt(" + victim + ")"
+						if i := strings.LastIndex(victim, "."); how >= 2 && i > 0 {
+							// the same removal through the builder of the parent node
+							if pb, ok := d.Lookup(victim[:i]).(dom.ContainerBuilder); ok {
+								pb.Remove(victim[i+1:])
+								desc = "Lookup(" + victim[:i] + ").Remove(" + victim[i+1:] + ")"
+							} else {
+								d.RemoveAt(victim)
+							}
+						} else {
+							d.RemoveAt(victim)
+						}
+						premoveAt(ref, strings.Split(victim, "."))
+						return c03Step{desc, "ORemoveAt " + gStr(victim)}, true
+					case 2:
+						return addAt(dir+".d", "second")
+					case 3:
+						return addAt(dir+".c", "third")
+					}
+					return c03Step1(r, d, ref, fail)
+				})
+			}
 			return c03History(r, start, 1+r.Intn(40), nil)
 		},
 	})
